@@ -96,6 +96,15 @@ def run_oracle(scn, tr):
     else:
         he = b.function_logger.he_noise_flag
         ok = yvf.size == 2 and yvf[0] == obs[0] and (bool(np.any(earlier == yvf[1])) or (he and earlier.min() - 1e-9 <= yvf[1] <= earlier.max() + 1e-9))
+        if ok and he and len(earlier) >= 2 and not np.any(earlier == yvf[1]):
+            # under specified noise repeated observations of x are merged in the log: the supplement is then the log's record of x
+            # as it stands (value and SD of the same merge), not a value the record held at some earlier time
+            fl_ = b.function_logger
+            rows = [j for j in range(fl_.Xn + 1) if np.max(np.abs(fl_.X_orig[j] - rx) / (wid + 1e-300)) <= 1e-12]
+            cur = [float(fl_.Y[j, 0]) for j in rows]
+            if cur and not any(abs(yvf[1] - cv) <= 1e-9 * max(1.0, abs(cv)) for cv in cur):
+                v.append(viol("c:yval-vec-single-sample-stale", f"yval_vec[1]={yvf[1]!r} is neither one of the {len(earlier)} earlier observations at x nor the "
+                              f"log's merged record of x {cur} (its SD in ysd_vec is that of the current merge)"))
         if not ok:
             v.append(viol("c:yval-vec-single-sample", f"yval_vec={yvf.tolist()} final observation={obs.tolist()} earlier observations at x={earlier.tolist()[:5]}"))
     m = float(np.mean(yvf))
